@@ -6,7 +6,9 @@ from . import common as G
 
 SMALL = ['[', ']', '(', ')', '"', "'", '&', ';', '#', 'a', '\\', ' ']           # the exhaustive alphabet (DESIGN 5/C05)
 AMP = G.AMP + ['&#x1F', '&#0;', '&#xD800;', '&#1114112;', '&amp', '&amp;amp;', '&&', '&;', '&#;', '&#x;', '&#xg;', '&a b;', '&quot;', '&gt;', '&apos;',
-               '&AMP;', '&É;', '&a_b;', '&a-b;', '&#12a;', '&#x1g;', '& ', '&\n', '&"', "&'", '&)', '&]', '&\\;', '\\&', '\\&amp;', '&amp\\;']
+               '&AMP;', '&É;', '&a_b;', '&a-b;', '&#12a;', '&#x1g;', '& ', '&\n', '&"', "&'", '&)', '&]', '&\\;', '\\&', '\\&amp;', '&amp\\;',
+               # the converter's own ampersand substitute, spelt in the input (STX/ETX are removed by input normalisation, `amp` stays a word)
+               '\x02amp\x03', 'a\x02amp\x03b', '\x02amp\x03#38;', '\x02amp\x03amp;']
 QUOTES = ['"', '"', "'", "'", '""', "''", '"\'', '\'"', ' "', '" ', " '", "' ", '\\"', "\\'", '`"`', '"`', '&quot;', '“', '＂']
 BRACK = ['[', ']', '[', ']', '(', ')', '(', ')', '![', '](', '](', ')(', '][', '[]', '()', '[[', ']]', '((', '))', ']:', '[a]', '[a]:', '[a][a]', '[a][]', '![a]', '![a][a]',
          '](u)', '](u "t")', "](u 't')", '](u (t))', '] (', ']\n(', ']\n[', '\\[', '\\]', '\\(', '\\)', '{', '}']
